@@ -59,6 +59,8 @@ histogram sizes by w buckets 1, 10, 100
   $n > 50 {
     del marked[$w] after 1ms
   }
+  # per-VM conversion state: every program converts the same texts at the same time
+  strptime($w, "w5")
 }
 /^del (?P<dw>\w+)$/ {
   del by_word[$dw]
@@ -171,6 +173,9 @@ func runC11x(c c11Case, info *c11Info) *vstat.Failure {
 			setFail(vstat.Failf("export-shows-a-state-that-never-existed:"+path, "%s export of histogram api_hist: bucket le=1 holds %d, count %d, sum %v (every observation is 1.0: the three are equal in every state the datum was ever in)", path, le1, count, sum))
 		}
 	}
+	// mtail loads, reloads and unloads programs from one goroutine at a time
+	// (start-up, then the SIGHUP handler): the actors that do so take turns
+	var loaderMu sync.Mutex
 	var lastScrape atomic.Int64
 	lastScrape.Store(-1)
 	for ai, a := range c.Actors {
@@ -192,7 +197,10 @@ func runC11x(c c11Case, info *c11Info) *vstat.Failure {
 				case "reload":
 					ver++
 					p := 1 + (ai+r)%(np-1)
-					if err := e.r.CompileAndRun(name(p), strings.NewReader(c11Source(p, ver))); err != nil {
+					loaderMu.Lock()
+					err := e.r.CompileAndRun(name(p), strings.NewReader(c11Source(p, ver)))
+					loaderMu.Unlock()
+					if err != nil {
 						setFail(vstat.Failf("reload-error", "%v", err))
 					}
 				case "prom":
@@ -258,12 +266,14 @@ func runC11x(c c11Case, info *c11Info) *vstat.Failure {
 					_ = sc.Exp.VerifWriteSocketMetrics(io.Discard, "collectd")
 				case "unload-load":
 					p := 1 + (ai+r)%(np-1)
+					loaderMu.Lock()
 					func() {
 						defer func() { _ = recover() }() // unloading twice concurrently is the harness's own doing
 						e.r.UnloadProgram(name(p))
 					}()
 					ver++
 					_ = e.r.CompileAndRun(name(p), strings.NewReader(c11Source(p, 100+ver)))
+					loaderMu.Unlock()
 				case "store-replace":
 					// a reload as the store sees it: a metric of a program of its own
 					// (no VM writes to it) is replaced by a fresh one with the same name,
@@ -343,7 +353,10 @@ func runC11x(c c11Case, info *c11Info) *vstat.Failure {
 					// genuinely new entries in the store while exports iterate it
 					n := fmt.Sprintf("n%d_%d_%s.mtail", ai, r, tag)
 					src := fmt.Sprintf("counter fresh_%d_%d_%s\n/^w/ {\n  fresh_%d_%d_%s++\n}\n", ai, r, tag, ai, r, tag)
-					if err := e.r.CompileAndRun(n, strings.NewReader(src)); err != nil {
+					loaderMu.Lock()
+					err := e.r.CompileAndRun(n, strings.NewReader(src))
+					loaderMu.Unlock()
+					if err != nil {
 						setFail(vstat.Failf("load-error", "%v", err))
 					}
 				}
